@@ -48,7 +48,7 @@ fn run(ctx: &Ctx) {
     run_ranges(ctx, check, "opt", "auto", 0, ctx.pick(1 << 20, 1 << 24), 1, "c02", &mut l);
 
     for (i, a) in ["auto", "qs", "mpqs", "siqs", "ecm", "ecm128"].iter().enumerate() {
-        let per = ctx.n(if *a == "auto" { 3000 } else { 700 }, if *a == "auto" { 200_000 } else { 40_000 }) as usize;
+        let per = ctx.n(if *a == "auto" { 8000 } else { 1500 }, if *a == "auto" { 200_000 } else { 40_000 }) as usize;
         let strat = case_strategy(a, quick, false);
         let mut cases = ctx.sample_strategy(check, i as u64, &strat, per);
         let (lo, hi) = working_range(a);
